@@ -66,6 +66,8 @@ def explore_c20(rng, tier, res, deep=False):
             kind = rng.choice(["valid"] * 5 + ["syntax", "type", "index", "name", "badjson", "badbytes", "deep", "mutant", "rootish", "rootish", "spaced", "bignum", "ctl", "ctl"])
             if 16 <= i < 28:
                 kind = "ctl"  # always some of these, whatever the seed
+            if 28 <= i < 44:
+                kind = "strstep"
             q = walk_query(rng, doc, g, filters=True) if rng.random() < 0.5 else g.query()
             FALSY = [{}, [], "", 0, False, None, 0.0, -0.0]
             if i < 2 * len(FALSY):
@@ -75,6 +77,14 @@ def explore_c20(rng, tier, res, deep=False):
                 # the root node itself / every kind of whole document, empty and scalar ones included
                 doc = rng.choice([{}, [], "", 0, False, None, 0.0, "x", 1, True, [0], {"a": None}, [[]], [{}], -0.0, 1.5, "é😀"])
                 q = rng.choice(["$", "$", "$.*", "$..*", "$[?@]", "$[*]", "$[0]", "$['a']", "$[?@ == 0]", "$ "[:1]])
+            if kind == "strstep":
+                # selectors applied to scalars at the end of a singular path (a JSON string has no elements, whatever way the
+                # query is evaluated), whole documents that are scalars
+                pool = [("$.name[0]", {"name": "abc"}), ("$[-1]", "xyz"), ("$.name[1:]", {"name": "abc"}), ("$.name.*", {"name": "abc"}), ("$..name[0]", {"a": {"name": "abc"}}),
+                        ("$[0][0]", ["ab", ["cd"]]), ("$.a.b[2]", {"a": {"b": "hello"}}), ("$['name']['0']", {"name": "abc"}), ("$.n[0]", {"n": 123}), ("$.t[0]", {"t": True}),
+                        ("$[0]", "a"), ("$.name[-1]", {"name": "abc"}), ("$.l[1][0]", {"l": ["x", "yz"]}), ("$[?@[0] == 'a']", ["abc", ["a"]]), ("$.name.length", {"name": "abc"}),
+                        ("$[1][-1]", [0, "xyz"])]
+                q, doc = pool[(i - 28) % len(pool)]
             if kind == "spaced":
                 # blank space INSIDE string literals (runs of spaces, no-break and other Unicode spaces): the text of a
                 # query — also one read from a file — is taken as it is, only stripped at its ends
@@ -121,7 +131,7 @@ def explore_c20(rng, tier, res, deep=False):
             debug = rng.random() < 0.2
             pretty = rng.random() < 0.4
             use_rfile = rng.random() < (0.7 if kind == "spaced" else 0.3)
-            if 16 <= i < 28:
+            if 16 <= i < 44:
                 debug, use_rfile = False, i % 4 == 3  # the fixed control-character family: inline mostly, no --debug
             use_stdin = rng.random() < 0.3 and kind != "badbytes"
             use_ofile = rng.random() < 0.4
@@ -166,7 +176,7 @@ def explore_c20(rng, tier, res, deep=False):
             if stage == "ok":
                 try:
                     data = json.loads(doc_bytes)
-                    vals = c.find(data).values()
+                    vals = jp.find(q_eff, data).values()  # the property's reference: the module-level find(query, document)
                     want_out = json.dumps(vals, indent=2 if pretty else None)
                 except (json.JSONDecodeError, UnicodeDecodeError) as e:
                     stage, exc_name = "evaluate", type(e).__name__
